@@ -7,7 +7,7 @@ C20 — the semantics seeded change C20j gave `_wait_for`, and why it is not the
             continue          # was: raise   ("completed between the expiry of this slice and the check: pick the outcome up
                               #               on the next pass")
 
-`passStepJ` is `passStep` with that one line changed.  With a coroutine that ends with its OWN TimeoutError the next pass's
+`passStepJ` is the pre-repair `passStep` (`passStepRaise` below) with that one line changed.  With a coroutine that ends with its OWN TimeoutError the next pass's
 `future.result()` raises it again, the same clause catches it, the future is done: the loop never ends, however many passes
 the environment grants (`C20_witness_j_spins`), while the code's loop ends in the first such pass
 (`C20_witness_code_ends`, instance of `Props/C20Raise.C20_wait_leaves_loop_when_future_completes`).
@@ -57,5 +57,57 @@ theorem C20_witness_code_ends (n : Nat) :
 
 /-- any other exception is not affected by the change -/
 theorem C20_witness_j_other : waitForJ (.raised .eoq) [donePass] = some (.raised .eoq) := by decide
+
+/-! ### the code before /repo ea90e75 (finding F-C20-wait-for-slice-race): `if future.done(): raise`
+
+The handler re-raised whatever TimeoutError it had caught.  When that was the EXPIRY of the slice and the future had
+completed between the expiry and the `done()` check (`racePass`), a call without any timeout raised TimeoutError and the
+value the coroutine had returned - for `receive()` the message it took from the queue - was dropped.  Kept here as a local
+definition; the code's `passStep` hands out the future's own outcome (`Props/C20Raise.C20_untimed_value_comes_back`). -/
+
+def passStepRaise (fin : Fin) (p : Pass) : Option Res :=
+  let r : Res := if p.completes then deliver fin else .raised .expiry
+  match r with
+  | .returned => some .returned
+  | .raised e =>
+    if e.isTimeout then
+      if p.completes || p.doneAtCheck then some (.raised e)                       -- if future.done(): raise
+      else if p.deadline then some (.raised e)
+      else if !p.alive && !p.doneAtCheck2 then some (.raised .state)
+      else none
+    else some (.raised e)
+
+def waitForRaise (fin : Fin) : List Pass → Option Res
+  | [] => none
+  | p :: ps =>
+    match passStepRaise fin p with
+    | some r => some r
+    | none => waitForRaise fin ps
+
+/-- the slice expired, the coroutine returned its value before the handler looked at `future.done()` -/
+def racePass : Pass := { completes := false, doneAtCheck := true, deadline := false, alive := true, doneAtCheck2 := true }
+def quietPass : Pass := { completes := false, doneAtCheck := false, deadline := false, alive := true, doneAtCheck2 := false }
+
+/-- before the repair: an untimed wait on a coroutine that RETURNED A VALUE raised the slice's TimeoutError - the result is lost -/
+theorem C20_witness_raise_loses_result : waitForRaise .returned [quietPass, racePass] = some (.raised .expiry) := by decide
+
+/-- … and any error of the coroutine was replaced by that TimeoutError too -/
+theorem C20_witness_raise_masks_error : waitForRaise (.raised .eoq) [racePass] = some (.raised .expiry) := by decide
+
+/-- the code now: the value (the error) comes out, with one more `future.result` call -/
+theorem C20_witness_code_keeps_result :
+    waitFor .returned [quietPass, racePass] = some .returned ∧ waitFor (.raised .eoq) [racePass] = some (.raised .eoq) ∧
+    pollsUsed .returned [quietPass, racePass] = 3 := by decide
+
+/-- outside the race window the two agree: same outcome on every pass that does not find the future done after an expiry -/
+theorem C20_witness_raise_agrees_elsewhere (fin : Fin) (p : Pass) (h : p.completes = true ∨ p.doneAtCheck = false) :
+    passStepRaise fin p = passStep fin p := by
+  unfold passStepRaise passStep
+  cases hc : p.completes
+  · have hd : p.doneAtCheck = false := by rcases h with h | h <;> simp_all
+    simp [hd]
+  · cases fin with
+    | returned => simp [deliver]
+    | raised e => cases e <;> simp [deliver, Exc.isTimeout]
 
 end NasdaqModel.Witness.C20Raise
